@@ -40,6 +40,7 @@ func main() {
 		fmt.Fprintf(os.Stderr, "unknown property %q\n", prop)
 		os.Exit(2)
 	}
+	inflightDir = cfg.out
 	if err := os.MkdirAll(cfg.out, 0o755); err != nil {
 		fmt.Fprintln(os.Stderr, err)
 		os.Exit(2)
